@@ -36,7 +36,8 @@ def run(c):
         "timer fired in a step is observed and passed to the model as input; fsync is observed through gofs dirty-page "
         "tracking (CorruptDirtyPages inside Engine.Commit)",
     ]
-    c.prove("SH.Props.C18", extra_files=["SH/Model/Binlog.lean"])
+    c.prove("SH.Props.C18", extra_files=["SH/Model/Binlog.lean", "SH/Lemmas/Binlog.lean", "SH/Lemmas/BinlogRot.lean",
+                                        "SH/Lemmas/BinlogSim.lean", "SH/Lemmas/BinlogCut.lean", "SH/Lemmas/BinlogWriter.lean"])
     drv = c.driver(DRIVER)
     binary = c.go_build(HARNESS)
     if binary and drv:
@@ -63,29 +64,36 @@ META = {
     "technique": ("Lean 4 theorems over an executable byte-level model of putLevToBuffer / writer loop / reader "
                   "(induction over event lists, truncation points and writer schedules) + differential correspondence with the "
                   "real fsbinlog on a memory file system + direct replay/commit/damage oracle"),
-    "text": ("Kernel-checked, for all inputs: (replay_all) started at ANY writer state - the start of the log or a later event "
-             "boundary with the crc the writer's Commit reported there (resume with snapshot meta) - the reader loop delivers "
-             "exactly the events appended afterwards, in order, each at the offset Append returned, crc records at any interval "
-             "included, and ends at the writer's position and crc; (crc_record_checked) after consuming k bytes of ANY file "
-             "content the running checksum is upd crc0 (those k bytes), and a crc record reached there fails replay with a "
-             "checksum error iff the stored value differs - corruption detection reduced to the checksum distinguishing the two "
-             "byte strings; (commit_monotone, commit_all_synced_partial) for every schedule of appends and writer-loop "
-             "iterations commit offsets never decrease, never run ahead of the append position, and when a commit is issued no "
-             "written byte is without an fsync; (putLev_no_panic) a writer restarted inside the first chunk never takes the "
-             "out-of-range hashBuff2 slice (fixed code; decide witness for the old code). The model is tied to the code by replaying generated histories (sessions, "
-             "rotations, crc records, resumes, truncations, bit flips) on the real package and on the compiled model and "
-             "diffing every observation; the direct oracle checks replay/resume equality, commit <= fsynced bytes (gofs dirty "
-             "pages), truncation and bit-flip outcomes on the real code."),
+    "text": ("Kernel-checked, for all inputs: (replay_rotating, via the simulation theorem `sim`) started at ANY writer state - the "
+             "start of the log or any commit position with the crc reported there - reading the rest of the current chunk and "
+             "the later chunks the writer lays out delivers exactly the events appended afterwards, in order, each at the "
+             "offset Append returned, through any number of ROTATE_TO/ROTATE_FROM boundaries and crc records at any interval, "
+             "and ends at the writer's position and crc; (seek_resume/seek_nometa) the seek step of a resume with or without "
+             "snapshot meta lands in that state; (truncate_prefix) the last chunk cut at ANY point behind its ROTATE_FROM header "
+             "replays without error exactly the events that are complete in the cut - a prefix, never a partial event - the "
+             "excluded cut inside the header being the known finding (decide witnesses); (crc_record_checked) after ANY bytes "
+             "the running checksum is upd crc0 (bytes read) and a crc record is rejected iff the stored value differs; "
+             "(commit_monotone, commit_le_fsynced) for every schedule of appends and writer-loop iterations commit offsets "
+             "never decrease and never exceed the bytes that are in the files and covered by an fsync (invariant FsInv: buffer "
+             "accounting + rotatePos well-formedness); (apNext_buff) the layout used by the replay theorems is byte for byte "
+             "what putLevToBuffer appends; (putLev_no_panic) a writer restarted inside the first chunk never takes the "
+             "out-of-range hashBuff2 slice. The model is tied to the code by replaying generated histories (sessions, rotations, "
+             "crc records, resumes, truncations, bit flips) on the real package and on the compiled model and diffing every "
+             "observation; the direct oracle checks replay/resume equality, commit <= fsynced bytes (gofs dirty pages), "
+             "truncation and bit-flip outcomes on the real code."),
     "note": ("Trusted: Lean kernel, the correspondence on generated histories (quick 200, thorough 400 histories incl. ~160 with "
              "every truncation offset and every single-bit flip of the last two chunks), gofs memory fs as the file system, "
-             "crc32/md5 as parameters. Partial: replay_all is proved for appends that do not rotate (one chunk, NoRotate "
-             "hypothesis); truncate_prefix is not proved (only its step lemma for a cut stream); commit <= bytes written needs "
-             "the rotatePos invariant and is oracle-only; rotation, multi-file scan, seek and resume across chunks are covered "
-             "by correspondence and oracle only. Known finding truncated-file-header: a last chunk cut inside its 36-byte "
-             "ROTATE_FROM header (crash inside rotate()) makes the whole binlog unreadable (scan error; index panic for 1-3 "
-             "bytes); reproduced by the model (decide witnesses in Props/C18.lean). Defect found and fixed "
-             "(fixes/C18-restart-first-chunk-hash.diff, sig=append-panic): Append panicked (and kept panicking after every "
-             "restart) when the writer was restarted inside a first chunk longer than 32K; the model describes the fixed code, "
-             "so on a tree without the fix the check reports VIOLATION with the replay."),
+             "crc32/md5 as parameters. Still partial (correspondence/oracle only): the readAllFromPosition wrapper around the "
+             "proved core - directory scan + sort, indexByPos choosing the chunk of the commit position, and that the writer's "
+             "files satisfy the hypotheses of seek_resume (the header of every later chunk is proved to scan to the expected "
+             "header); reading the LevStart/tag records of the first chunk (replay from offset 0 instead of the first commit "
+             "position); writeBuffer splitting the buffer into exactly the layout's chunks (byte accounting is proved, contents "
+             "not); truncation that removes whole later files. The md5 chain is NOT verified by the Go reader (decide witness: a "
+             "ROTATE_FROM with a wrong prev-hash replays unchanged), so 'mismatching prev-hash is rejected' is false of the code "
+             "and not part of the property. Known finding truncated-file-header: a last chunk cut inside its 36-byte ROTATE_FROM "
+             "header (crash inside rotate()) makes the whole binlog unreadable (scan error; index panic for 1-3 bytes); "
+             "reproduced by the model (decide witnesses) and excluded by construction in truncate_prefix. Defect found and fixed "
+             "in round 1 (sig=append-panic, committed in /repo): Append panicked after a restart inside a first chunk longer than "
+             "32K; the model describes the fixed code."),
     "design_ref": "DESIGN.md §6 C18",
 }
